@@ -65,6 +65,9 @@ class Check:
     rule = ""
     assumptions: list[str] = []
     hash_seeds = {"quick": [0], "thorough": [0]}
+    # interpreter modes the whole check is repeated under ("" = default, "-O" = optimised);
+    # checks read sys.flags.optimize to know where they are
+    interp_modes = {"quick": [""], "thorough": [""]}
     chunk = 64
 
     def families(self, tier):
@@ -405,7 +408,8 @@ def main(argv=None):
 
     t0 = time.time()
     seeds = check.hash_seeds[args.tier]
-    if args.child or len(seeds) <= 1:
+    modes = check.interp_modes[args.tier]
+    if args.child or (len(seeds) <= 1 and modes == [""]):
         total = explore(check, args.tier, seed)
         total["hash_seeds"] = [int(os.environ.get("PYTHONHASHSEED", "0"))]
         if args.child:
@@ -416,15 +420,17 @@ def main(argv=None):
         import pickle
         total = {"items": 0, "evals": 0, "keys": set(), "fails": {}, "counters": {},
                  "samples": [], "families": {}, "hash_seeds": []}
-        for hs in seeds:
+        for hs, mode in [(h, m_) for h in seeds for m_ in modes]:
             env = dict(os.environ, PYTHONHASHSEED=str(hs))
-            pr = subprocess.run([sys.executable, "-m", "vf.run", pid, "--tier", args.tier,
-                                 "--child"], cwd=VERIF, env=env, capture_output=True)
+            cmd = [sys.executable, *([mode] if mode else []), "-m", "vf.run", pid, "--tier",
+                   args.tier, "--child"]
+            pr = subprocess.run(cmd, cwd=VERIF, env=env, capture_output=True)
             m = re.search(rb"@@PARTIAL@@([0-9a-f]+)", pr.stdout)
             if pr.returncode != 0 or not m:
                 sys.stderr.write(pr.stderr.decode()[-3000:])
-                print(f"infrastructure error: child run under PYTHONHASHSEED={hs} failed")
+                print(f"infrastructure error: child run under PYTHONHASHSEED={hs} {mode} failed")
                 return 2
+            hs = (hs, mode) if mode else hs
             part = pickle.loads(bytes.fromhex(m.group(1).decode()))
             fams = part.pop("families")
             part_keys = part["keys"]
@@ -433,7 +439,7 @@ def main(argv=None):
             _merge(total, part)
             for k, v in fams.items():
                 total["families"][k] = total["families"].get(k, 0) + v
-            total["hash_seeds"].append(hs)
+            total["hash_seeds"].append(hs if not isinstance(hs, tuple) else f"{hs[0]} {hs[1]}")
 
     # ---- known findings --------------------------------------------------------------------
     recs = load_known(pid)
